@@ -105,7 +105,7 @@ Qed.
    order in which the stores are inspected *)
 Lemma abs_requested o n k : excl o -> (abs o n = Requested k <-> zassoc n (o_requested o) = Some k).
 Proof.
-  intro E. unfold abs. destruct (zassoc n (o_requested o)) as [k0|]; [split; congruence|].
+  intro E. unfold abs. destruct (zassoc n (o_requested o)) as [k0|]; [split; intro H; inversion H; reflexivity|].
   destruct (zassoc n (o_unstarted o)); [split; discriminate|].
   destruct (zassoc n (o_started o)); split; discriminate.
 Qed.
@@ -114,7 +114,7 @@ Proof.
   intro E. destruct (E n) as (A & B & C). unfold abs.
   destruct (zassoc n (o_requested o)) as [k0|].
   - split; [discriminate|]. intro H. destruct A as [A|A]; congruence.
-  - destruct (zassoc n (o_unstarted o)); [split; congruence|].
+  - destruct (zassoc n (o_unstarted o)); [split; intro H; inversion H; reflexivity|].
     destruct (zassoc n (o_started o)); split; discriminate.
 Qed.
 Lemma abs_fetching o n k : excl o -> (abs o n = Fetching k <-> zassoc n (o_started o) = Some k).
@@ -124,7 +124,7 @@ Proof.
   - split; [discriminate|]. intro H. destruct B as [B|B]; congruence.
   - destruct (zassoc n (o_unstarted o)).
     + split; [discriminate|]. intro H. destruct C as [C|C]; congruence.
-    + destruct (zassoc n (o_started o)); split; congruence.
+    + destruct (zassoc n (o_started o)); split; intro H; inversion H; reflexivity.
 Qed.
 Lemma abs_idle o n : abs o n = Idle <->
   zassoc n (o_requested o) = None /\ zassoc n (o_unstarted o) = None /\ zassoc n (o_started o) = None.
@@ -229,10 +229,11 @@ Proof.
     assert (AB : abs o n = Requested (t, v) \/ abs o n = Offered (t, v)).
     { unfold abs. destruct W as [W|[W1 W2]]; [rewrite W; auto|rewrite W1, W2; auto]. }
     split; [|split; [reflexivity|split; [|split]]].
-    + repeat split; cbn [o_requested o_unstarted o_started]; try assumption.
-      all: destruct (Z.eq_dec n0 n) as [->|D];
-        [try (left; exact A1); right; exact S3
-        |destruct (OT n0 D) as [R1 R2]; rewrite ?R1, ?R2; apply E].
+    + split; [exact M1|]. split; [exact M2|]. split; [exact N3|].
+      intro m. cbn [o_requested o_unstarted o_started].
+      destruct (Z.eq_dec m n) as [->|D].
+      * rewrite A1, S3. auto.
+      * destruct (OT m D) as [R1 R2]. rewrite R1, R2. apply E.
     + unfold abs at 1. cbn [o_requested o_unstarted o_started]. rewrite A1, A2.
       destruct AB as [-> | ->]; reflexivity.
     + intros m D. destruct (OT m D) as [R1 R2]. apply abs_ext; cbn [o_requested o_unstarted o_started]; auto.
@@ -264,10 +265,11 @@ Proof.
     assert (AB : abs o n = Offered id \/ abs o n = Fetching id).
     { unfold abs. rewrite S3. destruct W as [W|[W1 W2]]; [rewrite W; auto|rewrite W1, W2; auto]. }
     split; [|split; [reflexivity|split; [|split]]].
-    + repeat split; cbn [o_requested o_unstarted o_started]; try assumption.
-      all: destruct (Z.eq_dec n0 n) as [->|D];
-        [try (left; exact S3); right; exact A1
-        |destruct (OT n0 D) as [R1 R2]; rewrite ?R1, ?R2; apply E].
+    + split; [exact N1|]. split; [exact M1|]. split; [exact M2|].
+      intro m. cbn [o_requested o_unstarted o_started].
+      destruct (Z.eq_dec m n) as [->|D].
+      * rewrite S3, A1. auto.
+      * destruct (OT m D) as [R1 R2]. rewrite R1, R2. apply E.
     + unfold abs at 1. cbn [o_requested o_unstarted o_started]. rewrite S3, A1, A2.
       destruct AB as [-> | ->]; reflexivity.
     + intros m D. destruct (OT m D) as [R1 R2]. apply abs_ext; cbn [o_requested o_unstarted o_started]; auto.
